@@ -168,6 +168,42 @@ func (r *Report) finish(verifDir string, seed int, start time.Time, w *World, cm
 	os.MkdirAll(outDir, 0o755)
 	nviol, nknown, nundec, ndis := 0, 0, 0, 0
 	var knownHit []string
+	// a listed finding whose code was moved into another function of the same package (an extracted helper) keeps its
+	// rule and its construct (the tainted operand's roots) but changes the function in its key: when the listed key
+	// matches nothing in this run, a violation of the same rule with the same construct in the same package is that
+	// finding, not a new one. A genuinely new site appears next to the old key and is reported.
+	present := map[string]bool{}
+	for _, o := range r.Obls {
+		present[o.Key()] = true
+	}
+	pkgOfFn := func(fn string) string {
+		fn = strings.TrimLeft(fn, "(*")
+		if i := strings.Index(fn, "."); i > 0 {
+			return fn[:i]
+		}
+		return fn
+	}
+	moved := map[string]knownFinding{}
+	for key, k := range kmap {
+		if present[key] {
+			continue
+		}
+		parts := strings.SplitN(key, "|", 3)
+		if len(parts) == 3 {
+			moved[parts[0]+"|"+pkgOfFn(parts[1])+"|"+parts[2]] = k
+		}
+	}
+	for _, o := range r.Obls {
+		if o.Status == Violated {
+			if _, ok := kmap[o.Key()]; !ok {
+				mk := o.Rule + "|" + pkgOfFn(o.Function) + "|" + o.Construct
+				if k, ok := moved[mk]; ok {
+					delete(moved, mk) // one moved site per listed finding
+					kmap[o.Key()] = knownFinding{Property: k.Property, Key: o.Key(), What: k.What + " (listed under " + k.Key + "; the code now lives in " + o.Function + ")", Input: k.Input}
+				}
+			}
+		}
+	}
 	for _, o := range r.Obls {
 		if o.Status == Violated || o.Status == Undecided {
 			if k, ok := kmap[o.Key()]; ok && o.Status == Violated {
